@@ -35,8 +35,17 @@ def tmp_root() -> str:
     return tempfile.mkdtemp(prefix="awverif-", dir=base)
 
 
-def worker_env(root: str) -> dict:
+# the local time zone of a worker process: nothing any property states depends on it, so every worker gets another one
+# (whole-hour, half-hour and 45-minute offsets, both hemispheres' DST rules, beyond +12 h)
+WORKER_ZONES = ["UTC", "Asia/Kolkata", "America/St_Johns", "Pacific/Auckland", "America/Los_Angeles", "Europe/Stockholm",
+                "Pacific/Kiritimati", "Asia/Kathmandu", "UTC", "Australia/Lord_Howe", "America/Sao_Paulo", "Pacific/Marquesas",
+                "Asia/Tokyo", "Africa/Casablanca", "Pacific/Pago_Pago", "Europe/London"]
+
+
+def worker_env(root: str, tz: str = None) -> dict:
     env = dict(os.environ)
+    if tz and os.path.exists(os.path.join("/usr/share/zoneinfo", tz)):
+        env["TZ"] = tz
     for k in ("data", "config", "cache", "state", "home"):
         os.makedirs(os.path.join(root, k), exist_ok=True)
     env.update(
@@ -75,7 +84,7 @@ def _spawn(pid, tier, seed, widx, nworkers, plan, root):
                 cases=plan["cases_per_worker"], time_s=plan["time_s"], out=out,
                 extra=plan.get("extra", {}))
     p = subprocess.Popen([PY, "-m", "awverif.worker", json.dumps(args)],
-                         env=worker_env(wroot), cwd=wroot,
+                         env=worker_env(wroot, WORKER_ZONES[(widx + 5 * seed) % len(WORKER_ZONES)]), cwd=wroot,
                          stdout=subprocess.DEVNULL, stderr=open(os.path.join(root, f"w{widx}.err"), "w"))
     return p, out
 
@@ -234,7 +243,7 @@ def finish(pid, tier, seed, mod, plan, results, dead, wall):
             path = os.path.join(REPLAY_DIR, f"{pid}-{tier}-s{seed}-{n}.json")
             with open(path, "w") as f:
                 json.dump(dict(property=pid, tier=tier, seed=seed, kind=v["kind"],
-                               detail=v["detail"], case=v["case"]), f, indent=1, default=str)
+                               detail=v["detail"], case=v["case"], tz=v.get("tz")), f, indent=1, default=str)
             print(f"VIOLATION property={pid} replay={path}")
             print(f"  kind={v['kind']} detail={v['detail'][:400]}")
             if n >= 8:
@@ -261,7 +270,7 @@ def replay(pid: str, path: str) -> int:
                     seed=doc.get("seed", 0), widx=0, nworkers=1, cases=1, time_s=600, extra={})
         wroot = os.path.join(root, "w0")
         os.makedirs(wroot)
-        p = subprocess.run([PY, "-m", "awverif.worker", json.dumps(args)], env=worker_env(wroot),
+        p = subprocess.run([PY, "-m", "awverif.worker", json.dumps(args)], env=worker_env(wroot, doc.get("tz")),
                            cwd=wroot, timeout=900)
         if not os.path.exists(out):
             print(f"INCONCLUSIVE property={pid} reason=replay worker exit={p.returncode}")
